@@ -966,7 +966,7 @@ func checkAccounts(r *runner, views map[string]*LedgerView) []Violation {
 			if !row.FirstUsage.Time.Equal(e.first) {
 				tag := ""
 				if e.byMeta && row.FirstUsage.Time.Equal(e.noMetaLowering) {
-					tag = " [a metadata write earlier than the account's transactions does not lower it]"
+					tag = " [a metadata write on an account that already exists does not lower it]"
 				}
 				vs = append(vs, Violation{prop, "first-usage-is-the-earliest-event", fmt.Sprintf("ledger %s: account %s has first usage %s; the earliest committed transaction timestamp / metadata write on it is %s%s", name, a, row.FirstUsage.Time.Format("2006-01-02T15:04:05.999999Z"), e.first.Format("2006-01-02T15:04:05.999999Z"), tag)})
 			}
